@@ -266,6 +266,12 @@ def run(ctx):
                        if t['k'] == 'call' and interp.callee_key(t['callee']).endswith('Iterator::next')]
                 finite = bool(its) and all(FINITE_ITER.match(x or '') for x in its)
                 allow = ALLOW_LOOP.get(b['generic_path'])
+                if not finite and not allow and len(S.by_generic.get(b['generic_path'], [])) == 1:
+                    # a loop that is not over an iterator: finite if the exploration of the function on symbolic arguments unrolled it
+                    # completely, i.e. every path left the loop within the unrolling cap (no LOOP-CAP / summarised iteration)
+                    ls = ctx.summary(sn, b['generic_path'], params=[Sym('arg%d' % i) for i in range(b.get('argc', 0))])
+                    finite = ls.complete and not ls.notes and not any(e[0] in ('LOOP-CAP', 'LOOPSUM') for q in ls.paths + ls.diverged for e in q.events)
+                    its = its or ['(no iterator; exhaustively unrolled: %s)' % finite]
                 rep.ob('R12.5', 'loop in %s iterates over a finite iterator or is allow-listed' % b['generic_path'].replace('opaque_ke::', '')[:80], finite or bool(allow),
                        'iterators: %s' % its, core.body_loc(b), sn)
         # recursion
